@@ -67,7 +67,7 @@ def run_property(prop, tier, seed, only=None, jobs=16, replay_key=None):
     t0 = time.time()
     mon = importlib.import_module(f'vp.monitors.{prop}')
     plan = plan_for(mon, tier)
-    timeout = {'quick': 600, 'thorough': 5400}[tier]
+    timeout = {'quick': 420, 'thorough': 5400}[tier]
     tasks = []
     for kind in ('gen', 'tests', 'docs'):
         n = plan.get(kind, 0)
@@ -158,6 +158,9 @@ def merge(prop, tier, seed, mon, results, wall, partial=False):
         what = next(k['what'] for k in known_seen if k['pattern'] == pat)
         lines.append(f'KNOWN-FINDING: property={prop} {what}')
     rdir = os.path.join(core.VERIF_DIR, 'replays', prop)
+    if not partial and os.path.isdir(rdir):
+        for fn in os.listdir(rdir):
+            os.unlink(os.path.join(rdir, fn))
     for v in new_violations:
         os.makedirs(rdir, exist_ok=True)
         path = os.path.join(rdir, core.digest(v['key']) + '.json')
